@@ -30,15 +30,18 @@ def View.pred (vw : View) (v : Nat) : List Nat := vw.inn.getD v []
 def View.outDeg (vw : View) (u : Nat) : Nat := (vw.succW u).length
 
 /-- what `build_view` / `from_adjacency_list` produce from the edges in listing order:
-out-lists keep the listing order, in-lists are filled while walking the sources upwards -/
+out-lists keep the listing order.  The in-list of `v` holds the source of every edge into `v`
+(here in listing order; `build_view` fills them while walking the sources upwards — no
+modelled result depends on the order inside an in-list, only on its content as a multiset:
+`C26_view_of_edges`, `C27_cdlp_mode_perm_invariant`, sums in ℚ). -/
 def outOf (es : List Edge) (u : Nat) : List (Nat × Nat) :=
   es.filterMap (fun e => if e.1 = u then some e.2 else none)
 
-def innOf (n : Nat) (es : List Edge) (v : Nat) : List Nat :=
-  (List.range n).flatMap (fun u => ((outOf es u).filter (fun p => p.1 = v)).map (fun _ => u))
+def innOf (es : List Edge) (v : Nat) : List Nat :=
+  es.filterMap (fun e => if e.2.1 = v then some e.1 else none)
 
 def ofEdges (n : Nat) (es : List Edge) : View :=
-  { n := n, out := (List.range n).map (outOf es), inn := (List.range n).map (innOf n es) }
+  { n := n, out := (List.range n).map (outOf es), inn := (List.range n).map (innOf es) }
 
 /-- all edges of a view, grouped by source -/
 def edgesOf (vw : View) : List Edge :=
